@@ -228,7 +228,7 @@ func main() {
 	st := &stats{Schema: map[string]int{}, Services: map[string]int{}, Outcomes: map[string]int{}, Got: map[string]int{},
 		SeqKinds: map[string]int{}, RawKinds: map[string]int{}, SeqLen: map[string]int{}, NameClasses: map[string]int{},
 		OptionSets: map[string]string{},
-		Rule: "a sequence is non-trivial when it has at least 2 calls or a call with at least 2 arguments; distinct = distinct (program, option set, client, processor, calls with values and scripted outcomes); raw cases: distinct request bytes"}
+		Rule:       "a sequence is non-trivial when it has at least 2 calls or a call with at least 2 arguments; distinct = distinct (program, option set, client, processor, calls with values and scripted outcomes); raw cases: distinct request bytes"}
 	for _, o := range sets {
 		st.OptionSets[o.Key] = o.Options
 	}
@@ -247,9 +247,22 @@ func main() {
 		if i%5 == 1 {
 			pp.MaxFiles = 3
 		}
+		// programs 1 and 3 of every five carry same-named services in different files (3 files: the
+		// homonym included earlier and later; 2 files: a local service with the name of the qualified base)
+		wantFiles := 0
+		if i%5 == 1 {
+			wantFiles = 3
+		}
+		if i%5 == 3 {
+			wantFiles, pp.MaxFiles = 2, 2
+		}
 		p := schemagen.Generate(r.Fork(), pp, fmt.Sprintf("p%d", i))
+		for tries := 0; wantFiles > 0 && len(p.Files) != wantFiles && tries < 40; tries++ {
+			p = schemagen.Generate(r.Fork(), pp, fmt.Sprintf("p%d", i))
+		}
 		sp := schemagen.DefaultServiceParams()
 		sp.Collide = i%4 != 3
+		sp.Homonyms = wantFiles > 0 && len(p.Files) == wantFiles
 		schemagen.AddServices(r.Fork(), p, sp)
 		progs = append(progs, p)
 		for oi, o := range sets {
@@ -371,9 +384,16 @@ func main() {
 				}
 				addSeq("random", sv, sv, calls)
 			}
-			// a newer client against an older processor: the client of sv talks to the processor of its base
 			if sv.Extends != "" {
 				base := p.Service(sv.Extends)
+				// a client of the base service against the processor of sv: every inherited method of the
+				// base the IDL names must be dispatched
+				var inh []*callIn
+				for _, m := range p.Methods(base) {
+					inh = append(inh, mkCall(m))
+				}
+				addSeq("base_client_derived_processor", base, sv, inh)
+				// a newer client against an older processor: the client of sv talks to the processor of its base
 				for k := 0; k < 2; k++ {
 					l := rr.Range(1, 6)
 					var calls []*callIn
